@@ -248,3 +248,44 @@ def obs(vc):
     ups = SF.entries(log, "update.enqueue")
     got = {e[1][1].simulation_id: [o.tag for o in e[1][3]] for e in ups}
     vc.ensure("O-C19-obs.reach-filter", got == {1: ["a"], 2: ["b"]} and len(ups) == 2)
+
+
+@obligation("C19", "realtime_flag", ensures=["O-C19-flag.target", "O-C19-flag.sensor"], fns=[TA + "TargetAgent.fromConfig", SA + "SensingAgent.fromConfig"], mode="Z",
+            note="which agents take their truth from the importer is decided by the configured flags: a target agent is built realtime iff propagation.target_realtime_propagation, a sensing agent iff propagation.sensor_realtime_propagation (the two flags are independent symbolic booleans), with the configured id, the given dynamics and clock, and the initial state of its own configuration at the clock's epoch")
+def realtime_flag(vc):
+    import inspect
+    t_rt, s_rt = vc.bool("target_realtime"), vc.bool("sensor_realtime")
+    prop = _NS(target_realtime_propagation=t_rt, sensor_realtime_propagation=s_rt, station_keeping=False)
+    clock = _NS(datetime_epoch="EPOCH", julian_date_start="JD0")
+    plat = _NS(type="Spacecraft", visual_cross_section=1.0, mass=100.0, reflectivity=0.2)
+    cfg = _NS(id=42, name="a", platform=plat, state=_NS(toECI=lambda when: ("ECI", when)), sensor="SENSORCFG")
+
+    def run(modspec, clsname, key, patches):
+        import importlib
+        real = getattr(importlib.import_module(modspec[:-1]), clsname)
+        sig = inspect.signature(real.__init__)
+        got = {}
+
+        class Fake:
+            _createStationKeepers = staticmethod(lambda *a: "SK")
+
+            def __new__(cls, *a, **k):
+                got.update(sig.bind(None, *a, **k).arguments)
+                return "AGENT"
+        if vc.symbolic:
+            f = vc.fn(modspec + clsname + ".fromConfig")
+            for k, v in patches.items():
+                vc.stub(modspec + "@" + k, v)
+            out = f(Fake, **{key: cfg}, clock=clock, dynamics="DYN", prop_cfg=prop)
+        else:
+            import contextlib
+            from unittest import mock
+            with (mock.patch.multiple(modspec[:-1], **patches) if patches else contextlib.nullcontext()):
+                out = real.fromConfig.__func__(Fake, **{key: cfg}, clock=clock, dynamics="DYN", prop_cfg=prop)
+        return out, got
+    out, got = run(TA, "TargetAgent", "tgt_cfg", {})
+    vc.ensure("O-C19-flag.target", out == "AGENT" and got["realtime"] is t_rt and got["_id"] == 42 and got["dynamics"] == "DYN" and got["clock"] is clock
+              and got["initial_state"] == ("ECI", "EPOCH"))
+    out, got = run(SA, "SensingAgent", "sen_cfg", {"sensorFactory": lambda c: ("SENSOR", c)})
+    vc.ensure("O-C19-flag.sensor", out == "AGENT" and got["realtime"] is s_rt and got["_id"] == 42 and got["dynamics"] == "DYN" and got["clock"] is clock
+              and got["initial_state"] == ("ECI", "EPOCH") and got["sensors"] == ("SENSOR", "SENSORCFG"))
